@@ -313,8 +313,12 @@ impl ParallelCacheState {
             // If it is marked as selfdestructed inside revm
             // we need to changed state to destroyed.
             if is_destructed {
+                // Flip the status before clearing the slots: a concurrent cache-filling reader
+                // re-checks the status while it holds the slot map, so it either sees the new
+                // status or its insert is removed below.
+                let transition = self.get_account_mut(address).selfdestruct();
                 self.storage.remove(&address);
-                return self.get_account_mut(address).selfdestruct();
+                return transition;
             }
 
             // Note: it can happen that created contract get selfdestructed in same block
@@ -327,9 +331,9 @@ impl ParallelCacheState {
             // is not possible because CREATE2 is introduced later.
             if is_created {
                 let info = account.info;
-                self.storage.remove(&address);
                 let (transition, changed_slots) =
                     self.get_account_mut(address).newly_created(info.clone(), changed_storage);
+                self.storage.remove(&address);
                 self.contracts.entry(info.code_hash).or_insert_with(|| info.code.clone().unwrap());
                 (Some(transition), Some(changed_slots))
             }
@@ -341,9 +345,10 @@ impl ParallelCacheState {
             // pre-existing empty accounts are unmarked as touched. Therefore, an account that
             // reaches the commit layer as touched, empty, and not created must be cleared.
             else if is_empty {
-                self.storage.remove(&address);
                 drop(changed_storage);
-                (self.get_account_mut(address).touch_empty_eip161(), None)
+                let transition = self.get_account_mut(address).touch_empty_eip161();
+                self.storage.remove(&address);
+                (transition, None)
             } else {
                 let (transition, changed_slots) =
                     self.get_account_mut(address).change(account.info, changed_storage);
@@ -565,24 +570,31 @@ impl<'a, DB: DatabaseRef> ParallelStateView<'a, DB> {
         }
         // As in revm State::storage_ref, the account is not guaranteed to be cached. In that case,
         // the backing database remains the source of truth.
-        let is_storage_known =
+        let is_storage_known = || {
             self.cache.accounts.get(&address).is_some_and(|account| {
                 account.status.is_storage_known() || account.account.is_none()
-            });
+            })
+        };
 
-        let value = if is_storage_known {
+        let value = if is_storage_known() {
             U256::ZERO
         } else {
             self.with_metrics(|| self.database.storage_ref(address, index))?
         };
-        let value = if let Some(slots) = self.cache.storage.get(&address) {
+        // Ordered commit may have destroyed or recreated the account while the database was being
+        // consulted. It flips the account status before clearing the slot map, so the status is
+        // read again while the slot map entry is held: a fetched value is cached only if the
+        // database is still the source of truth for this account.
+        let insert = |slots: &DashMap<U256, U256>| {
+            let value = if is_storage_known() { U256::ZERO } else { value };
             *slots.entry(index).or_insert(value).value()
+        };
+        let value = if let Some(slots) = self.cache.storage.get(&address) {
+            insert(slots.value())
         } else {
             match self.cache.storage.entry(address) {
-                Entry::Occupied(entry) => *entry.get().entry(index).or_insert(value).value(),
-                Entry::Vacant(entry) => {
-                    *entry.insert(Default::default()).entry(index).or_insert(value).value()
-                }
+                Entry::Occupied(entry) => insert(entry.get()),
+                Entry::Vacant(entry) => insert(entry.insert(Default::default()).value()),
             }
         };
         Ok(value)
